@@ -303,7 +303,7 @@ impl Tape {
     }
 }
 
-pub const SLOTS: usize = 3;
+pub const SLOTS: usize = 6;
 static mut TAPES: [Tape; SLOTS] = [Tape::EMPTY; SLOTS];
 
 /// Register `tape` under `slot`; a reader created from the one-byte input `[slot]` replays it.
@@ -414,7 +414,10 @@ pub const fn input_for(slot: u8) -> &'static str {
     match slot {
         0 => "\u{0}",
         1 => "\u{1}",
-        _ => "\u{2}",
+        2 => "\u{2}",
+        3 => "\u{3}",
+        4 => "\u{4}",
+        _ => "\u{5}",
     }
 }
 
